@@ -5,9 +5,9 @@ V = os.path.dirname(os.path.dirname(os.path.abspath(__file__)))
 PY = '/venv/bin/python'
 CHECKS = {
  'C01': ('Every symbol accepted by make/make_qr/make_micro is decoded by an independent ISO 18004 reference decoder inside a post-condition on encoder.encode and compared byte for byte with the specification-level payload; ECI headers are checked against an independent AIM assignment table. Exploration: thousands of class-stratified inputs per run, all 256 one-byte inputs, every mode at every version at, below and just above capacity (thorough: all 65,536 two-byte inputs).',
-         'runtime monitor: icontract post-condition on encoder.encode + reference decoder oracle', '6 C01'),
+         'runtime monitor: icontract post-condition on encoder.encode + reference decoder oracle; keyword / positional / one-shot-iterator calling, a python -O worker', '6 C01'),
  'C02': ('All 1312 (version, level, mask) triples are enumerated on every run with several contents each; every module of every emitted matrix is compared with an independent function-pattern map, format/version words are recomputed (BCH/Golay) and cross-checked by zero RS syndromes, QRCode metadata is compared with the matrix.',
-         'runtime monitor: post-condition on encoder.encode + independent geometry/format model, exhaustive triple enumeration', '6 C02'),
+         'runtime monitor: post-condition on encoder.encode + independent geometry/format model, exhaustive triple enumeration; copies / pickles of the returned object, a python -O worker', '6 C02'),
  'C03': ('All 168 block layouts: syndromes under the independent Table 9 layout must vanish; then faults are injected into the emitted matrix (up to floor(ec/2) codewords per block in several patterns) and a Berlekamp-Massey decoder must restore data and payload. Evidence counts injected vs corrected codewords.',
          'runtime monitor + fault injection on the output, RS syndrome / BM decoder oracle', '6 C03'),
  'C04': ('Every (version, level, mode) capacity boundary of the independent model, both sides, automatic and requested version, crossed with micro/eci/boost and multi-segment boundaries; accepted symbols are decoded and re-costed in all smaller admissible versions; overflow must be DataOverflowError.',
@@ -15,7 +15,7 @@ CHECKS = {
  'C05': ('Capacity boundaries x requested level x boost: level read from the format information, expected boosted level recomputed from decoded bit count; the monitor issues the paired boost-off call and compares versions; make_sequence with boost off included.',
          'runtime monitor: post-condition + paired-call differential oracle', '6 C05'),
  'C06': ('All candidate maskings are reconstructed from the emitted matrix and scored with an independent ISO 7.8.3 scorer; automatic mask must be the lowest-numbered optimum, requested mask must be the one applied (format word + zero syndromes), also through make_sequence. One pinned deviation (N3 overlap) is a classified known finding.',
-         'runtime monitor: post-condition + unmask/remask/score oracle from the output alone', '6 C06'),
+         'runtime monitor: post-condition + unmask/remask/score oracle from the output alone; recording hooks on the scoring functions (real calls, then boundary matrices)', '6 C06'),
  'C07': ('All one-byte and (thorough: all 65,536) two-byte contents plus class strings x requested mode x version class; decoded mode indicator vs specification-level expectation; representable requested modes must be honoured, unrepresentable refused with ValueError.',
          'runtime monitor: post-condition + mode model oracle, small-scope exhaustive inputs', '6 C07'),
  'C08': ('make_sequence over content classes x selectors x levels x lengths up to beyond 16 symbols; every symbol decoded; offline checker over the sequence (count, versions, headers, parity, reassembly). Three pinned/recorded mechanisms are classified known findings.',
@@ -23,7 +23,7 @@ CHECKS = {
  'C13': ('Lengths constructed so that every residue x distance-to-capacity combination occurs for QR and each Micro version; the tail after the last segment (terminator, alignment bits, pad codewords, final nibble, remainder bits) is checked on the decoded data codewords. One pinned deviation (extra 0x00 codeword) is a classified known finding.',
          'runtime monitor: post-condition + tail-structure analysis of decoded codewords', '6 C13'),
  'C14': ('Thousands of argument vectors from domain tables (all documented spellings and boundary junk) for make/make_qr/make_micro/make_sequence with an exception-class monitor and a model of excluded combinations, spelling pairs compared by matrix, serialiser refusals, CLI subprocesses compared with the library message.',
-         'runtime monitor: exception-class monitor + combination model + differential spelling pairs + CLI subprocess observation', '6 C14'),
+         'runtime monitor: exception-class monitor + combination model + differential spelling pairs + CLI observed as subprocess and in-process (redirected stderr, outputs that cannot be stored)', '6 C14'),
  'C09': ('Renders over all symbol sizes, kinds (png, pbm P4/P1, pam, ppm, xbm, xpm, txt, ans, compact), scales, borders and colour forms are parsed by independent format readers (container well-formedness incl. PNG chunk CRCs / zlib stream length / filters / palette, Netpbm headers and raster lengths) and compared pixel by pixel / cell by cell with the grid predicted from the matrix; scale < 1 must be refused.',
          'runtime monitor: independent format readers as oracle over rendered bytes', '6 C09'),
  'C10': ('SVG, EPS, PDF and TikZ documents over sizes x fractional scales x borders x colours x SVG options are interpreted by independent mini-interpreters (XML, PostScript tokens, PDF objects/xref/inflate/content operators, PGF); the stroked segments are rasterised on the module grid after applying the document transforms and compared with the dark modules; page box, colours, opacity, background, PDF /Length and xref offsets are checked.',
@@ -31,9 +31,9 @@ CHECKS = {
  'C11': ('matrix_iter plain and verbose over every module of all 44 symbol sizes (exhaustive in every run) against the independent function-pattern map and documented type codes; invalid border/scale -> ValueError; colourful PNG/SVG/PPM with random per-type colour subsets (incl. two-colour configurations against the dark/light split) compared per pixel / per cell with the configured type colour. One pinned deviation ((8, size-9) typed as format) is a classified known finding.',
          'runtime monitor: exhaustive module enumeration + type-map oracle + format readers', '6 C11'),
  'C12': ('For each option set every applicable output route (path lower/upper case, streams, svgz, data URIs, svg_inline, cli.main in-process and subprocess) is executed and an offline checker requires byte-identical documents (timestamps blanked); CLI terminal output vs QRCode.terminal; sequence file names and contents with an open() audit hook; unknown extensions refused.',
-         'runtime monitor: differential route log + offline equality checker + audit hook', '6 C12'),
+         'runtime monitor: differential route log + offline equality checker + audit hook; CLI in-process and as subprocess under several stdout encodings', '6 C12'),
  'C15': ('A recorded call list is executed in fresh subprocesses (golden), then in shuffled/repeated histories and from 8 threads (barrier-started first use of each size, free running, seeded yield injection via sys.monitoring LINE events, switch interval 1e-6); fingerprints must equal golden; module tables, arguments and previously returned symbols are fingerprinted before/after; idempotence pairs. Evidence reports overlapping call pairs and injected yields.',
-         'runtime monitor: golden-log comparison under history and schedule stress + state fingerprints', '6 C15'),
+         'runtime monitor: golden-log comparison (fresh interpreters, other hash seeds and time zones) under history and schedule stress with yield injection + fingerprints of library tables and interpreter-wide settings', '6 C15'),
  'C16': ('Payloads of the WIFI, MeCard, vCard, geo, mailto and EPC builders with adversarial values are parsed back by small independent parsers and compared with the supplied fields; EPC limits (accept in-limit, refuse out-of-limit), amount by exact Decimal arithmetic, charset, length, level/version; factory symbols pass the C01 decoder post-condition with exactly the payload.',
          'runtime monitor: parse-back oracles + C01 post-condition on factory symbols', '6 C16'),
 }
